@@ -1,5 +1,6 @@
 pub mod backend;
 pub mod codec;
+pub mod crash;
 pub mod exec;
 pub mod r#gen;
 pub mod util;
